@@ -117,7 +117,7 @@ def check_stream(cfg, key_prefix='C03', full=True, on_call=None):
 def variant_labels(cfg):
     out = []
     m = cfg['model']
-    for k in ('positional', 'opt', 'rank_order', 'out_scale'):
+    for k in ('positional', 'opt', 'rank_order', 'out_scale', 'array_out'):
         if m.get(k):
             out.append('model_' + k)
     if cfg.get('prefill'):
